@@ -1278,6 +1278,11 @@ func (g *Gen) bindParams(fr *Frame, fresh bool) []Term {
 		if p, ok := fv.Type().Underlying().(*types.Pointer); ok {
 			_ = p
 			fr.params["&"+fv.Name()] = Binding{t, goTy(fv.Type())}
+			// the cell of a variable captured by a function literal exists (a bound-method wrapper holds its
+			// receiver in a free variable instead: nothing is assumed there)
+			if fn.Synthetic == "" && fn.Parent() != nil {
+				g.sc.Assume(not(eq(t.S, "Nil")))
+			}
 		}
 	}
 	g.bindUncaptured(fr)
